@@ -2,7 +2,9 @@
 
 Domain : generated Colang 2 programs (vf/co2.py: start/await/activate of flows and actions, when/or when, and/or groups of
          awaits, abort, return, loops) x histories mixing alphabet events (incl. co-simulated 'hit' events) with Started /
-         Finished of running actions arriving late, early or never x tie-break outcomes.
+         Finished of running actions arriving late, early or never x tie-break outcomes; optionally 2-3 'sharer' flows that
+         co-win one identical action on a common event and end at different times (shared Action object); enumerated
+         families: no-wait activated flows, same-event races, restart races, shared actions.
 Oracle : history invariants checked after every processed event, from the outgoing events and a read-only look at State:
          (a) no Stop for an action that was never started, already stopped or already finished;
          (b) when a flow instance leaves the running set, every unfinished action it started that no still-running flow
@@ -23,27 +25,88 @@ LEVEL = "exploration"
 CASE_TIMEOUT = 40
 RULE = (
     "enumerated: activated flows without any waiting statement (must run exactly once; 16 programs); a same-event race family (flow p queues start/activate/await of b, an action or a send while its parent q finishes/aborts/returns on the same "
-    "event; both advancing orders; b pre-activated or not; p and q started or activated; 640 programs x 2 histories incl. idle time) and a restart-race family (an activated flow already restarted 0-2 times ends on the very event that ends its last activator; 36 programs); generated: "
+    "event; both advancing orders; b pre-activated or not; p and q started or activated; 640 programs x 2 histories incl. idle time) and a restart-race family (an activated flow already restarted 0-2 times ends on the very event that ends its last activator; 36 programs) and a shared-action family (flows a, b and optionally c reach the identical action - start as $ref / anonymous start / await, "
+    "in 5 pairings - on the same event in the same loop, so one Action object is shared; a more specific, b more specific, or equal scores with both tie-break outcomes; a started, started-and-aborting or activated; "
+    "b and c ending in one step; every order of {a ends, b ends, Started, Finished} with and without idle time, then the common event again; 80 programs x 64 histories in the quick tier, 120 x 88 in the thorough tier); generated: "
     "program from the co2 grammar (hierarchies up to depth 4 through start/await/activate, when/or when, await groups, abort/return, "
     "actions with references); history of 1-30 items (events, guided 'hit' events, Started/Finished of the k-th running action - so "
-    "Finished may arrive before the flow waits for it, late, or never); tie-break choices drawn. Non-trivial = during the history a flow "
+    "Finished may arrive before the flow waits for it, late, or never); tie-break choices drawn; in about a third of the cases 2-3 extra 'sharer' flows are added to the program: each has its own drawn prefix, then the same "
+    "`match Ev<e>` (with or without a parameter, i.e. equal or different matching scores) followed by the identical action (start as $ref / await), then a tail drawn from the same grammar (may call every helper, abort, return, wait for "
+    "the shared reference or end at once); they are started or activated by main (at the top or at a drawn position) or by a wrapper flow that ends at some point, all in one loop - so one event makes them co-win one shared action and the "
+    "history decides in which order the sharers end relative to its Started / Finished (labels sharer-flows-added, shared-action-observed, sharer-ended-while-shared, finished-after-a-sharer-ended, last-sharer-ended-after-finished / -unfinished). Non-trivial = during the history a flow "
     "instance that had a running child flow or an unfinished action left the running set; distinct by (program, history)."
 )
 ASSUMPTIONS = [
     "activators of X are approximated statically: a running flow whose body contains `activate X` (reference counts are not observable)",
     "every generated helper flow starts with a waiting statement; the 'finishes without ever waiting' exception is covered by the enumerated nowait family only",
     "actions are identified by the action_uid of their Start event; Finished events are only ever sent for started actions",
+    "a history is cut (label history-cut-at-150-flow-instances, everything up to the cut is checked) once more than 150 flow instances exist (ordinary cases stay below 50; the cost per event grows quadratically): recursive programs in which every instance starts several new ones grow exponentially and would only run into the case timeout",
+    "an action is 'shared with a still-running flow' when its uid is in the action list of a running flow (read-only look at FlowState.action_uids); which of the sharers the interpreter regards as the owner is not used by the oracle - both tie-break outcomes and both orders of ending are generated instead",
 ]
 WALL = {"quick": 170, "thorough": 1500}
+MAX_FLOW_INSTANCES = 150  # ordinary cases stay below 50; only self-multiplying recursive programs get here
 
 
 def budget(tier):
     return 16000 if tier == "quick" else 200000
 
 
+PROFILE = {"recursion": True, "boost": ["startact", "startact", "awaitact", "startflow", "startflow", "awaitflow", "activate", "return", "abort"]}
+SHARE_REF = 90  # reference number of the common action / of the sharer flows (the grammar counts its own from 0)
+
+
+@st.composite
+def _with_sharers(draw, prog):
+    """Adds 2-3 'sharer' flows to a generated program: each reaches, after its own drawn prefix, the same `match Ev<e>` followed by
+    the identical action (start ... as $ref / await ...), so that one event makes them co-win ONE shared action; what follows
+    (drawn from the same grammar, may call every helper of the program, abort, return, finish at once) decides when each of them
+    ends. They are started / activated by main or by a wrapper flow that ends itself at some point (all sharers end in one step)."""
+    flows = prog["flows"]
+    main = flows[-1]
+    nh = len(flows) - 1
+    helper_params = [bool(f["params"]) for f in flows[:-1]]
+    prof = dict(co2.DEFAULT_PROFILE)
+    prof.update(PROFILE)
+    k = draw(st.sampled_from([2, 2, 3]))
+    ev = draw(st.integers(0, co2.EVENTS - 1))
+    act = draw(st.integers(0, len(co2.ACTIONS) - 1))
+    loop = draw(st.sampled_from([None, None, None, "L1"]))
+    inits = [{"k": "assign", "var": v, "expr": 0} for v in co2.VARS]
+    new = []
+    for i in range(k):
+        ctx = co2.Ctx(-1, nh, [], prof)
+        pre = draw(st.sampled_from([[], [], [], [{"k": "send", "n": 7}], [{"k": "match", "ev": (ev + 1) % co2.EVENTS, "v": None}]]))
+        wait = {"k": "match", "ev": ev, "v": draw(st.sampled_from([None, None, 1]))}
+        if draw(st.integers(0, 2)) == 0:
+            common = {"k": "awaitact", "a": act}
+        else:
+            common = {"k": "startact", "a": act, "ref": SHARE_REF}
+            ctx.vis_a = [SHARE_REF]
+        tail = draw(co2._stmts(ctx, 1, helper_params, 0, 3, need_wait_first=draw(st.sampled_from([True, True, False]))))
+        new.append({"name": f"h{nh + i}", "params": [], "loop": loop, "body": inits + pre + [wait, common] + tail})
+    how = [draw(st.sampled_from(["startflow", "startflow", "startflow", "activate"])) for _ in range(k)]
+    calls = [{"k": "activate", "f": nh + i} if how[i] == "activate" else {"k": "startflow", "f": nh + i, "arg": None, "ref": SHARE_REF + i} for i in range(k)]
+    host = draw(st.sampled_from(["main", "main", "wrapper"]))
+    if host == "wrapper":
+        ctx = co2.Ctx(-1, nh, [], prof)
+        tail = draw(co2._stmts(ctx, 1, helper_params, 0, 2, need_wait_first=True))
+        new.append({"name": f"h{nh + k}", "params": [], "loop": None, "body": inits + calls + tail})
+        calls = [{"k": draw(st.sampled_from(["startflow", "startflow", "activate"])), "f": nh + k, "arg": None, "ref": SHARE_REF + k}]
+    at = draw(st.sampled_from([len(co2.VARS), len(co2.VARS), None]))
+    if at is None:
+        at = draw(st.integers(len(co2.VARS), len(main["body"]) - 1))
+    body = main["body"][:at] + calls + main["body"][at:]
+    return {"flows": flows[:-1] + new + [dict(main, body=body)]}, {"n": k, "host": host, "activated": how.count("activate")}
+
+
 @st.composite
 def _case(draw):
-    return {"prog": draw(co2.programs(profile={"recursion": True, "boost": ["startact", "startact", "awaitact", "startflow", "startflow", "awaitflow", "activate", "return", "abort"]}, max_helpers=4, depth=2)), "hist": draw(co2.histories(30)), "choices": draw(st.lists(st.integers(0, 3), max_size=3))}
+    prog = draw(co2.programs(profile=PROFILE, max_helpers=4, depth=2))
+    case = {}
+    if draw(st.integers(0, 9)) < 3:
+        prog, case["share"] = draw(_with_sharers(prog))
+    case.update({"prog": prog, "hist": draw(co2.histories(30)), "choices": draw(st.lists(st.integers(0, 3), max_size=3))})
+    return case
 
 
 def strategy(tier):
@@ -104,9 +167,61 @@ def _restart_race_cases():
                     yield {"leg": "race", "text": text, "hist": hist, "choices": [], "activators": {"b": ["a"], "a": []}}
 
 
+# Shared actions (enumerated): flows a and b (optionally c) reach the identical action on the same event in the same loop, so the
+# interpreter starts it once and all of them hold the one Action; which flow's action object survives depends on the order of
+# the matching scores and, for equal scores, on the tie-break. Then the sharers end at different times (or b and c in one
+# step), in every order relative to the Started / Finished events of the action.
+SHARE_FORMS = {
+    "as": 'start UtteranceBotAction(script="same") as $x',
+    "anon": 'start UtteranceBotAction(script="same")',
+    "await": 'await UtteranceBotAction(script="same")',
+}
+SHARE_PAIRS = [("as", "as"), ("anon", "anon"), ("await", "as"), ("as", "await"), ("await", "await")]
+# (match of a, match of b, tie-break choices): a more specific, b more specific, equal scores with either outcome of the tie-break
+SHARE_SCORES = [("E(v=1)", "E()", []), ("E()", "E(v=1)", []), ("E()", "E()", []), ("E()", "E()", [1])]
+SHARE_A = [("start", ""), ("start", "  abort"), ("activate", "")]
+
+
+def _shared_text(fa, fb, ma, mb, a_mode, a_exit, third):
+    lines = ["flow a", f"  match {ma}", "  " + SHARE_FORMS[fa], "  match Ea()"] + ([a_exit] if a_exit else []) + [""]
+    lines += ["flow b", f"  match {mb}", "  " + SHARE_FORMS[fb], "  match Eb()", "  send OutB()", ""]
+    if third:
+        lines += ["flow c", "  match E()", "  " + SHARE_FORMS[fb], "  match Eb()", ""]
+    lines += ["flow main", f"  {a_mode} a", "  start b"] + (["  start c"] if third else []) + ["  match Never()", ""]
+    return "\n".join(lines)
+
+
+def _shared_cases(tier):
+    import itertools
+
+    items = [["raw", "Ea", None], ["raw", "Eb", None], ["finished", 0], ["started", 0]]
+    hists = []
+    # the invariants are checked after every step, so a history also covers its prefixes: short orders are only listed for the
+    # sake of what follows them (the common event again), in the quick tier up to length 2
+    for n in range(1, len(items) + 1):
+        for perm in itertools.permutations(items, n):
+            if n == len(items):
+                hists.append(list(perm))
+                hists.append(list(perm[:-1]) + [["age"], perm[-1]])
+            elif n <= 2 or tier != "quick":
+                hists.append(list(perm))
+    for fa, fb in SHARE_PAIRS:
+        for ma, mb, choices in SHARE_SCORES:
+            for a_mode, a_exit in SHARE_A:
+                for third in (False, True):
+                    if third and tier == "quick" and (a_mode, a_exit) != SHARE_A[0]:
+                        continue
+                    text = _shared_text(fa, fb, ma, mb, a_mode, a_exit, third)
+                    for h in hists:
+                        # the same event again at the end: a restarted (activated) sharer starts a fresh action of its own
+                        hist = [["raw", "E", 1]] + [list(x) for x in h] + [["raw", "E", 1], ["raw", "Ea", None], ["finished", 0]]
+                        yield {"leg": "race", "family": "shared", "text": text, "hist": hist, "choices": list(choices), "activators": {"a": ["main"], "b": [], "c": []}}
+
+
 def enumerate_cases(tier):
     yield from _nowait_cases()
     yield from _restart_race_cases()
+    yield from _shared_cases(tier)
     hists = [
         [["raw", "E", 1], ["raw", "Eb", None], ["raw", "StopKeeper", None], ["raw", "Eb", None], ["raw", "E", 1], ["raw", "Eb", None]],
         [["raw", "E", 1], ["age"], ["raw", "Eb", None], ["raw", "Other", None], ["raw", "StopKeeper", None], ["raw", "Eb", None], ["raw", "E", 1]],
@@ -146,6 +261,9 @@ class Ledger:
         self.stops = {}  # action uid -> count
         self.finished = set()
         self.activation_pairs = set()  # (activator uid, flow id)
+        self.shared = set()  # action uids seen in the action list of two running flows at once
+        self.lost_sharer = set()  # shared, unfinished action uids of which one holder ended while another one kept running
+        self.flags = set()  # which shapes of the shared-action life cycle the history went through (labels only)
 
 
 def _snapshot(state):
@@ -158,6 +276,7 @@ def _snapshot(state):
             "listening": s.is_listening_flow(fs),
             "status": fs.status.value,
             "parent": fs.parent_uid,
+            "loop": fs.loop_id,
             "children": list(fs.child_flow_uids),
             "actions": list(fs.action_uids),
             "activated": fs.activated,
@@ -181,6 +300,7 @@ def _check_step(prev, cur, ledger, outs, activators, text, where):
             if ledger.stops[uid] > 1:
                 raise Violation("double-stop", f"{where}: {t} sent {ledger.stops[uid]} times for the same action\n{text}")
     running_now = {u for u, f in cur.items() if f["running"]}
+    started_now = {e["action_uid"] for e in outs if e["type"].startswith("Start") and e["type"].endswith("Action") and "action_uid" in e}
     # (b) flows that left the running set
     ended_with_dependants = False
     for uid, f in prev.items():
@@ -193,11 +313,28 @@ def _check_step(prev, cur, ledger, outs, activators, text, where):
             ended_with_dependants = True
         for a in live_acts:
             shared = any(a in cur[r]["actions"] for r in running_now)
+            if shared:
+                ledger.lost_sharer.add(a)
+            elif a in ledger.shared:
+                ledger.flags.add("last-sharer-ended-unfinished")
             if not shared and ledger.stops.get(a, 0) != 1:
+                kind = "action-not-stopped"
+                if ledger.stops.get(a, 0) == 0 and a in started_now and _crosses_loops(uid, prev):
+                    # root-cause bucket of its own: the Start was emitted in the very step in which the flow (a flow in another
+                    # interaction loop than one of its ancestors) was ended - same clause of the statement, same verdict
+                    kind = "action-started-for-flow-ended-in-same-step-other-loop"
                 raise Violation(
-                    "action-not-stopped",
+                    kind,
                     f"{where}: flow {f['flow_id']} ended ({cur.get(uid, {}).get('status', 'removed')}) but its unfinished action {ledger.started[a]} got {ledger.stops.get(a, 0)} Stop events\n{text}",
                 )
+        for a in acts:
+            if a in ledger.finished and a in ledger.lost_sharer and not any(a in cur[r]["actions"] for r in running_now):
+                ledger.flags.add("last-sharer-ended-after-finished")
+    holders = {}
+    for uid in running_now:
+        for a in cur[uid]["actions"]:
+            holders[a] = holders.get(a, 0) + 1
+    ledger.shared.update(a for a, n in holders.items() if n > 1 and a in ledger.started)
     # (c)/(e) orphans
     for uid in running_now:
         f = cur[uid]
@@ -223,6 +360,17 @@ def _check_step(prev, cur, ledger, outs, activators, text, where):
                     f"{where}: flow {f['flow_id']} is still running but its parent {p['flow_id'] if p else '<gone>'} is {p['status'] if p else 'gone'}\n{text}",
                 )
     return ended_with_dependants
+
+
+def _crosses_loops(uid, snap):
+    """The flow runs in another interaction loop than one of its ancestors (diagnosis only)."""
+    loop = snap[uid]["loop"]
+    anc = snap[uid]["parent"]
+    while anc in snap:
+        if snap[anc]["loop"] != loop:
+            return True
+        anc = snap[anc]["parent"]
+    return False
 
 
 def _check_activation_liveness(cur, ledger, confirmed, text, where):
@@ -319,7 +467,7 @@ def prop(case):
 
     confirm()
     fed = 0
-    late_finish = 0
+    cut = False
     for i, item in enumerate(case["hist"]):
         if item[0] == "rawkw":
             ev = dict(item[2], type=item[1])
@@ -333,6 +481,8 @@ def prop(case):
             continue
         if ev["type"].endswith("ActionFinished") and "action_uid" in ev:
             ledger.finished.add(ev["action_uid"])
+            if ev["action_uid"] in ledger.lost_sharer and ledger.stops.get(ev["action_uid"], 0) == 0:
+                ledger.flags.add("finished-after-a-sharer-ended")
         try:
             outs = smh.feed(s.state, ev)
         except Exception as e:
@@ -346,10 +496,20 @@ def prop(case):
         if _check_step(prev, cur, ledger, outs, activators, text, where):
             nt = True
         confirm()
+        if len(cur) > MAX_FLOW_INSTANCES:
+            cut = True  # a recursive program that multiplies itself on every event: the rest of the history would only time out
+            break
     from collections import Counter
 
     kinds = co2.count_kinds(case["prog"]) if case.get("leg") != "race" else Counter()
-    labels = ["race-family"] if case.get("leg") == "race" else []
+    labels = ["shared-family" if case.get("family") == "shared" else "race-family"] if case.get("leg") == "race" else []
+    if case.get("share"):
+        labels.append("sharer-flows-added")
+    if ledger.shared:
+        labels.append("shared-action-observed")
+    if ledger.lost_sharer:
+        labels.append("sharer-ended-while-shared")
+    labels += sorted(ledger.flags)
     if nt:
         labels.append("flow-ended-with-dependants")
     if ledger.stops:
@@ -364,5 +524,7 @@ def prop(case):
         labels.append("abort/return")
     if ledger.finished:
         labels.append("action-finished-events")
+    if cut:
+        labels.append("history-cut-at-%d-flow-instances" % MAX_FLOW_INSTANCES)
     labels.append("len>=10" if fed >= 10 else "len<10")
     return ok(nt=nt, labels=labels, view={"program": text, "history": case["hist"][:12], "stops": len(ledger.stops)}, counters={"events_fed": fed, "stop_events": sum(ledger.stops.values())})
